@@ -20,6 +20,7 @@ use byteorder::ReadBytesExt;
 
 use super::constants::*;
 use super::error::*;
+use super::functions::is_jsonb;
 use super::jentry::JEntry;
 use super::number::Number;
 use super::parser::parse_value;
@@ -54,6 +55,13 @@ use super::value::Value;
 ///
 ///    Decode `JSONB` Value from binary bytes.
 pub fn from_slice(buf: &[u8]) -> Result<Value<'_>, Error> {
+    // `JSON` text never starts with a `JSONB` header byte, parse it as text first,
+    // otherwise text like `12345678` would be decoded as a `JSONB` scalar.
+    if !is_jsonb(buf) {
+        if let Ok(value) = parse_value(buf) {
+            return Ok(value);
+        }
+    }
     let mut decoder = Decoder::new(buf);
     match decoder.decode() {
         Ok(value) => Ok(value),
